@@ -90,6 +90,7 @@ typedef struct {
   uint64_t *snap; size_t snapwords;
 } vwin;
 /* fill: 0 zeros, 1 ones, 2 PR.  If make_window==0 the "view" is an owned standalone matrix (parent NULL). */
+extern int vw_nest; /* 1: vw_make creates the view through an intermediate view (view of a view) */
 vwin vw_make(const pm *content, int make_window, int rowoff, int wordoff, int trailw, int trailr, int fill);
 void vw_snapshot(vwin *w);           /* record all parent words (or owned words) */
 /* compare parent outside the view rectangle with snapshot: returns 0 if unchanged, else 1 and describes first diff */
